@@ -256,6 +256,7 @@ func GenSCHistory(r *rand.Rand, long bool) SCHist {
 	var txs []string
 	committed := map[string]bool{}
 	nb := 0
+	late := map[string]string{} // block object -> real hash still to be set
 	newBlock := func() {
 		nb++
 		hash := fmt.Sprintf("h%d", nb)
@@ -278,6 +279,13 @@ func GenSCHistory(r *rand.Rand, long bool) SCHist {
 		}
 		blocks = append(blocks, blk{obj, hash, prev})
 		open = append(open, obj)
+		// a generator's block does not know its hash while it is being built: it is created under a placeholder and named
+		// (BlockCache.SetBlockHash) just before it commits
+		if !long && r.Intn(4) == 0 {
+			late[obj] = hash
+			h.Ops = append(h.Ops, SCOp{Op: "newblock", B: obj, H: "tmp-" + obj, P: prev})
+			return
+		}
 		h.Ops = append(h.Ops, SCOp{Op: "newblock", B: obj, H: hash, P: prev})
 	}
 	nops := 8 + r.Intn(40)
@@ -331,7 +339,13 @@ func GenSCHistory(r *rand.Rand, long bool) SCHist {
 		case x < 40:
 			h.Ops = append(h.Ops, SCOp{Op: "bget", B: ob[r.Intn(len(ob))], K: k})
 		case x < 52:
-			h.Ops = append(h.Ops, SCOp{Op: "bcommit", B: func() string { b := ob[r.Intn(len(ob))]; committed[b] = true; return b }()})
+			b := ob[r.Intn(len(ob))]
+			committed[b] = true
+			if real, ok := late[b]; ok {
+				h.Ops = append(h.Ops, SCOp{Op: "sethash", B: b, H: real})
+				delete(late, b)
+			}
+			h.Ops = append(h.Ops, SCOp{Op: "bcommit", B: b})
 		case x < 75:
 			var ot []string
 			for _, t := range txs {
